@@ -279,6 +279,7 @@ Proof.
     eapply wf2_same; [exact W2|eapply disconnect_finishing; eauto].
   - revert H. repeat break_match; try discriminate. intro H; inversion H; subst.
     eapply wf2_same; [exact W2|eapply disconnect_finishing; eauto].
+  - match type of H with match ?x with _ => _ end = _ => destruct x end; inversion H; subst; try exact W2; eapply wf2_same; eauto.
 Qed.
 
 Lemma count_ret_single : forall k o k0 r, count_ret k [OReturn o k0 r] = (if N.eqb k0 k then 1 else 0)%nat.
@@ -622,6 +623,7 @@ Proof.
     apply summary_disconnect; auto; intros; discriminate.
   - revert H. repeat break_match; try discriminate. intro H; inversion H; subst.
     apply summary_disconnect; auto; intros; discriminate.
+  - match type of H with match ?x with _ => _ end = _ => destruct x end; inversion H; subst; boring.
 Qed.
 
 (* ------------------------------------------------------------------ *)
